@@ -37,7 +37,7 @@ class C09(Check):
     per_run_timeout = 240
     expected_probes = ["sim:sv", "sim:dm", "entry:simulate", "entry:run", "entry:steps", "feat:channel",
                        "feat:keyed-channel", "noise:constant", "noise:insertion", "noise:gate-like",
-                       "noise:with_noise-circuit", "noise:thermal", "noise:unitary-gate", "noise:device", "entry:sweep", "entry:mux-fdm", "feat:composite-noisy-gate", "feat:pauli-measure", "protocol:apply_mixture-checked", "protocol:custom-apply-channel-checked", "protocol:apply_channel-checked", "order:spectator", "init:density-matrix", "init:vector", "draw:uniform-kraus", "draw:choice", "convert-checked",
+                       "noise:with_noise-circuit", "noise:thermal", "noise:unitary-gate", "noise:device", "entry:sweep", "entry:mux-fdm", "feat:composite-noisy-gate", "feat:pauli-measure", "protocol:apply_mixture-checked", "protocol:factor-checked", "protocol:custom-apply-channel-checked", "protocol:apply_channel-checked", "order:spectator", "init:density-matrix", "init:vector", "draw:uniform-kraus", "draw:choice", "convert-checked",
                        "feat:reset", "boundary:fallback-branch"]
 
     def setup(self) -> None:
@@ -218,6 +218,36 @@ class C09(Check):
                                           f"{float(np.max(np.abs(got_rho - want_rho))):.3e}")
         ctx.probe("protocol:custom-apply-channel-checked")
 
+    def _factor_check(self, cirq, tape, ctx) -> None:
+        """Product states factor: DensityMatrixSimulationState.factor / cirq.linalg factor_density_matrix (what the
+        density-matrix simulator uses to take qubits out of a joint state again) with validation on, on a
+        product of tape-drawn single-qubit mixed states, for a tape-drawn list of axes."""
+        n = 2 + tape.draw(3, "n")
+        rhos = []
+        for _ in range(n):
+            a = [0.0, 0.3, 0.9, 1.7, 2.4][tape.draw(5, "angle")]
+            p = [1.0, 0.75, 0.5][tape.draw(3, "purity")]
+            v = np.array([math.cos(a / 2), 1j * math.sin(a / 2)])
+            rhos.append(p * np.outer(v, v.conj()) + (1 - p) * np.eye(2) / 2)
+        full = rhos[0]
+        for r in rhos[1:]:
+            full = np.kron(full, r)
+        k = 1 + tape.draw(n - 1, "n-axes")
+        axes = tape.shuffle(list(range(n)), "axes")[:k]
+        t = full.reshape((2,) * (2 * n)).astype(np.complex128)
+        try:
+            ext, rem = cirq.linalg.transformations.factor_density_matrix(t, axes, validate=True)
+        except ValueError as e:
+            raise Violation(f"{P}-FACTOR", f"factor_density_matrix(product of {n} one-qubit states, axes={axes}, "
+                                           f"validate=True) raised {e}")
+        want = rhos[axes[0]]
+        for a in axes[1:]:
+            want = np.kron(want, rhos[a])
+        if not np.allclose(np.asarray(ext).reshape(2 ** k, 2 ** k), want, atol=1e-7):
+            raise Violation(f"{P}-FACTOR", f"factor_density_matrix(axes={axes}) extracted a different state than the "
+                                           f"product of the factors on those axes")
+        ctx.probe("protocol:factor-checked")
+
     def run_one(self, tape, ctx: Ctx) -> None:
         cirq = self.cirq
         self.qdrive.reset_state_hash_counter()
@@ -347,6 +377,16 @@ class C09(Check):
             self._custom_mixture_check(cirq, tape, ctx)
         if tape.chance(1, 5, "custom-apply-channel?"):
             self._custom_apply_channel_check(cirq, tape, ctx)
+        if tape.chance(1, 8, "factor?"):
+            self._factor_check(cirq, tape, ctx)
+        if tape.chance(1, 8, "mixture-of-parameterized?"):
+            import sympy
+            gsym = [cirq.PhasedXPowGate(phase_exponent=sympy.Symbol("a")), cirq.X ** sympy.Symbol("a"),
+                    cirq.CZ ** sympy.Symbol("a")][tape.draw(3, "sym-gate")]
+            m = cirq.mixture(gsym, None)
+            if m is not None and (cirq.has_mixture(gsym) is False or any(u is None for _p, u in m)):
+                raise Violation(f"{P}-CONVERT", f"cirq.mixture({gsym!r}, None) = {m!r} although cirq.has_mixture says "
+                                                f"{cirq.has_mixture(gsym)} and cirq.kraus(..., None) = {cirq.kraus(gsym, None)!r}")
         entry = ["simulate", "steps", "run", "sweep", "mux-fdm"][tape.weighted([5, 2, 3, 2, 1], "entry")]
         if entry == "mux-fdm" and (with_noise_circuit or g.key_dims or g.channel_keys or g.features & {"reset"}):
             entry = "simulate"      # the mux helper is exercised on measurement-free circuits
